@@ -176,9 +176,57 @@ var pageContexts = []pageContext{
 	{"slot-content", func(f map[string]string, p string, d map[string]any) (map[string]string, map[string]any) {
 		return withFile(withFile(f, "ctxwrap.vuego", `<section><slot>ctx-fallback</slot></section>`), p, `<template include="ctxwrap.vuego">`+f[p]+`</template>`), d
 	}},
+	{"entry:template-render", nil},
+	{"entry:render-string", nil},
 	{"velseif-element", func(f map[string]string, p string, d map[string]any) (map[string]string, map[string]any) {
 		return withFile(f, p, `<i v-if="ctxno">n</i><article v-else-if="ctxyes">`+f[p]+`</article><b v-else>ctx-else</b>`), withKeys(d, map[string]any{"ctxno": false, "ctxyes": true})
 	}},
+}
+
+// pageViaEntry: the SAME page and data through another entry point of the Template API (the `page` case itself goes through Vue.Render):
+// Load(page).Fill(data).Render and New().Fill(data).RenderString(source). Only for file sets in which these mean the same as Vue.Render: no
+// registered shorthand tags, no layouts/ directory, no configuration files, no front-matter on the page.
+func pageViaEntry(c *Case, entry string, files map[string]string, comps map[string]string, page string, data map[string]any) *Case {
+	if len(comps) > 0 {
+		return nil
+	}
+	mfs := fstest.MapFS{}
+	for n, src := range files {
+		if strings.HasPrefix(n, "layouts/") || strings.HasPrefix(n, "data/") || n == "theme.yml" || strings.HasPrefix(n, "components/") {
+			return nil
+		}
+		mfs[n] = &fstest.MapFile{Data: []byte(src), ModTime: time.Unix(1700000000, 0)}
+	}
+	v := pageCase(strings.TrimPrefix(c.Name, "page: ")+" via "+entry, files, nil, page, data, "context:"+entry)
+	v.Key = "ctx|" + entry + "|" + c.Key
+	done := make(chan map[string]any, 1)
+	go func() {
+		var buf bytes.Buffer
+		var res map[string]any
+		defer func() {
+			if e := recover(); e != nil {
+				res = map[string]any{"panic": true}
+			}
+			done <- res
+		}()
+		var err error
+		if entry == "entry:render-string" {
+			err = vuego.NewFS(mfs).New().Fill(data).RenderString(context.Background(), &buf, files[page])
+		} else {
+			err = vuego.NewFS(mfs).Load(page).Fill(data).Render(context.Background(), &buf)
+		}
+		if err != nil {
+			res = map[string]any{"err": true}
+		} else {
+			res = map[string]any{"out": buf.String()}
+		}
+	}()
+	select {
+	case v.Impl = <-done:
+	case <-time.After(10 * time.Second):
+		v.Impl = map[string]any{"hang": true}
+	}
+	return v
 }
 
 // pageInContext: the page of a `page` correspondence case, wrapped; nil when the case is not a plain page over map data
@@ -208,6 +256,9 @@ func pageInContext(c *Case, ctx pageContext) (out *Case) {
 				comps[fmt.Sprint(pr[0])] = fmt.Sprint(pr[1])
 			}
 		}
+	}
+	if strings.HasPrefix(ctx.name, "entry:") {
+		return pageViaEntry(c, ctx.name, files, comps, page, data)
 	}
 	f2, d2 := ctx.wrap(files, page, data)
 	v := pageCase(strings.TrimPrefix(c.Name, "page: ")+" in "+ctx.name, f2, comps, page, d2, "context:"+ctx.name)
